@@ -1043,10 +1043,11 @@ def throw_sites(stmts):
 def translate_shapes(toks):
     """read_check and mfc tables"""
     text, stmts = canon_function(toks, "read_data")
-    body = text
-    for rx, _ in LINE_LOOPS:
+    body, loop = text, "LoopOther"
+    for rx, name in LINE_LOOPS:
         body, n = rx.subn("LINELOOP", body, count=1)
         if n:
+            loop = name
             break
     if body == READ_DATA_EVERY_ROW:
         check = ("CheckEveryRow",)
@@ -1066,7 +1067,7 @@ def translate_shapes(toks):
         mfc = ("MfcLoops", "InitUninit" if m.group("init").startswith("(") else "InitZero", int(m.group("off") or 0))
     else:
         mfc = ("MfcOther", hashlib_short(mtext))
-    return check, mfc, text, mtext
+    return loop, check, mfc, text, mtext
 
 
 def hashlib_short(s):
@@ -1215,8 +1216,9 @@ def translate(repo):
     mtoks = lex(preprocess(open(mp).read()))
     tab = translate_main(mtoks, maps)
     tab["maps"] = maps
+    # the line loop is recognised on the canonical text (names of the stream and of the line variable are free)
+    loop, check, mfc, rd_text, mfc_text = translate_shapes(utoks)
     tab["read_loop"] = loop
-    check, mfc, rd_text, mfc_text = translate_shapes(utoks)
     tab["read_check"] = check
     tab["mfc"] = mfc
     tab["shape_text"] = {"read_data": rd_text, "matrix_from_callback": mfc_text}
